@@ -19,6 +19,7 @@ import (
 	"path/filepath"
 	"sort"
 	"strings"
+	"time"
 )
 
 // Rng is splitmix64: every random choice of a run derives from one state.
@@ -41,6 +42,9 @@ func (r *Rng) Bool() bool         { return r.Next()&1 == 1 }
 func (r *Rng) Pct(p int) bool     { return r.Intn(100) < p }
 func (r *Rng) Range(a, b int) int { return a + r.Intn(b-a+1) }
 func (r *Rng) Fork() *Rng         { return &Rng{s: r.Next()} }
+
+// caseWatchdog: how long one case may take (the slowest legitimate ones take well under a second)
+const caseWatchdog = 120 * time.Second
 
 // Case is one executed case.
 type Case struct {
@@ -202,7 +206,26 @@ func gen(f *Family, tier string, seed uint64, out string, scale int, bias, corpu
 		if err != nil {
 			panic(err)
 		}
-		res, err := f.Run(raw)
+		// every case runs under a watchdog: a call that never returns (a lock
+		// taken twice, a lock left held) is a finding, not a hung check
+		type runOut struct {
+			res *Result
+			err error
+		}
+		ch := make(chan runOut, 1)
+		go func() {
+			r, e := f.Run(raw)
+			ch <- runOut{r, e}
+		}()
+		var res *Result
+		select {
+		case o := <-ch:
+			res, err = o.res, o.err
+		case <-time.After(caseWatchdog):
+			res = &Result{Tags: []string{"watchdog"}, Nontrivial: true,
+				Observed:  "the case did not return",
+				Invariant: fmt.Sprintf("the case did not return within %v (a call blocked: deadlock?)", caseWatchdog)}
+		}
 		if err != nil {
 			panic(fmt.Sprintf("family %s: run: %v (input %s)", f.Name, err, raw))
 		}
